@@ -107,7 +107,7 @@ CHECKS = {
     },
     "C17": {
         "level": "fault_enumeration",
-        "rule": "a generated prefix history (6-28 steps), then ONE public call with an error result: reads on a committed version {Get, Has, GetWithIndex, GetByIndex, Iterate, Iterator loop+Error+Close, GetProof (membership and non-membership), GetMembershipProof, GetVersionedProof, GetVersioned, GetImmutable+Hash, Export loop, LoadVersion, TraverseStateChanges, VersionExists/AvailableVersions/GetLatestVersion}, reads on the working tree {Get, Iterate, Iterator}, writes {Set+SaveVersion, Remove+SaveVersion, SaveVersion without changes, DeleteVersionsTo, DeleteVersionsFrom, LoadVersionForOverwriting, SaveChangeSet (set / delete), Import+Commit}, on a cold handle (cache 0/2/1000, fast index on/off). A fault-free run on a cloned image records the result R and the number n of storage calls; then EVERY position k in [1,n] is faulted once (Get, Has, Iterator/ReverseIterator creation, iterator step, batch Set/Delete/Write) on a fresh clone, plus 0-3 drawn multi-fault sets; TestC17BigImport fails each physical batch write of a >10000-node import (background flushes and the final write) in turn, under a watchdog (an import that never returns does not surface the fault either). Oracle: an error, or exactly R (fault on an irrelevant path); never another value, an absence, a shorter iteration/export, a panic or a process abort; a write call must not report success when a storage write failed; the store left behind by a failed single-batch write reopens with every listed version readable and unchanged. non-trivial = n >= 2 and at least one position turned the result into an error; exhaustive over positions within each case",
+        "rule": "a generated prefix history (6-28 steps), then ONE public call with an error result: reads on a committed version {Get, Has, GetWithIndex, GetByIndex, Iterate, Iterator loop+Error+Close, GetProof (membership and non-membership), GetMembershipProof, GetVersionedProof, GetVersioned, GetImmutable+Hash, Export loop, LoadVersion, TraverseStateChanges, VersionExists/AvailableVersions/GetLatestVersion}, reads on the working tree {Get, Iterate, Iterator}, writes {Set+SaveVersion, Remove+SaveVersion, SaveVersion without changes, DeleteVersionsTo, DeleteVersionsFrom, LoadVersionForOverwriting, SaveChangeSet (set / delete), Import+Commit}, on a cold handle (cache 0/2/1000, fast index on/off, SyncOption on in a quarter of the cases, the handle on a PrefixDB namespace of the store in a quarter - faults are injected below the PrefixDB; in a third of the eligible cases the call is the FIRST call on a brand-new handle, which discovers the version range under the faults). A fault-free run on a cloned image records the result R and the number n of storage calls; then EVERY position k in [1,n] is faulted once (Get, Has, Iterator/ReverseIterator creation, iterator step, batch Set/Delete/Write) on a fresh clone, plus 0-3 drawn multi-fault sets; TestC17BigImport fails each physical batch write of a >10000-node import (background flushes and the final write) in turn, under a watchdog (an import that never returns does not surface the fault either). Oracle: an error, or exactly R (fault on an irrelevant path); never another value, an absence, a shorter iteration/export, a panic or a process abort; a write call must not report success when a storage write failed; the store left behind by a failed single-batch write reopens with every listed version readable and unchanged; after a FAILED DeleteVersionsTo(n) the same handle commits once more (storage healthy again) and every version above n must still be intact through a fresh handle; a load that reported success under a fault must leave a handle that reports the right version range. non-trivial = n >= 2 and at least one position turned the result into an error; exhaustive over positions within each case",
         "assumptions": _ASSUME + ["calls without an error result (IterateRange, IterateRangeInclusive) are outside the property", "write calls use flush threshold 100000 (one physical write); a sixth of them 150/300 where only the error-vs-success oracle applies (F7 family)"],
         "coverage_extra": {"exhaustive_within_each_history": True},
         "quick": [{"test": "TestC17", "checks": 600, "shards": 8}, {"test": "TestC17BigImport", "checks": 2, "shards": 2}],
